@@ -33,31 +33,17 @@ Proof. exact roundtrip. Qed.
    path, validation library, verbosity of the configuration and of the logger, dependency
    graph, force), the flag if given, else the value in the configuration file (first
    candidate that is a readable document), else the default - for every set of files and
-   every flag set outside C19-1 (the file's section does not validate on its own) and
-   C19-6 (verbose only in the file). *)
+   every flag set (formerly outside the classes C19-1 and C19-6). *)
 Theorem C19_precedence : forall (f : fs) (fl : flags),
-  kf_file_invalid f = false -> kf_verbose_file_only f fl = false ->
   eff_of fl (apply_flags fl (search f cands)) = spec_eff f fl.
 Proof. exact precedence. Qed.
 
-Theorem C19_precedence_file_refuted : exists f fl,
-  kf_file_invalid f = true /\ spec_invalid f (spec_eff f fl) = true /\
-  exists e f', run_generate f fl = RRun e f' /\ e_output e = "./src/generated".
-Proof. exact precedence_refuted_file. Qed.
-
-Theorem C19_precedence_verbose_refuted : exists f fl,
-  kf_file_invalid f = false /\ kf_verbose_file_only f fl = true /\
-  e_verbose (eff_of fl (apply_flags fl (search f cands))) = true /\
-  e_log_verbose (eff_of fl (apply_flags fl (search f cands))) = false /\
-  e_log_verbose (spec_eff f fl) = true.
-Proof. exact precedence_refuted_verbose. Qed.
-
 (* generate: when the effective settings name an unsupported library or a project path
-   that does not exist the run is refused and the file system is the one it started from;
+   that does not exist - whether the value comes from a flag, from the configuration file
+   or from a default - the run is refused and the file system is the one it started from;
    otherwise it runs with exactly the effective settings and writes nowhere but under the
    effective output path. *)
 Theorem C19_generate_reject_first : forall (f : fs) (fl : flags),
-  kf_file_invalid f = false -> kf_verbose_file_only f fl = false ->
   if spec_invalid f (spec_eff f fl)
   then exists e, run_generate f fl = RReject e f
   else (run_generate f fl = RNoCommands (spec_eff f fl) f /\ fs_get f (e_project (spec_eff f fl)) <> Some NProj)
@@ -153,19 +139,44 @@ Definition ex_flags : flags :=
      f_visualize := false; f_force := false |}.
 
 Example C19_ex_precedence :
-  kf_file_invalid ex_fs = false /\ kf_verbose_file_only ex_fs ex_flags = false
-  /\ spec_invalid ex_fs (spec_eff ex_fs ex_flags) = false
+  spec_invalid ex_fs (spec_eff ex_fs ex_flags) = false
   /\ spec_eff ex_fs ex_flags =
      {| e_project := "./projB"; e_output := "./outF"; e_lib := "zod"; e_verbose := true;
         e_log_verbose := true; e_visualize := false; e_force := true |}.
 Proof. vm_compute. repeat split; reflexivity. Qed.
 
+Definition no_flags : flags :=
+  {| f_project := None; f_output := None; f_validation := None; f_verbose := false;
+     f_visualize := false; f_force := false |}.
+
 Example C19_ex_generate_reject :
   let fl := {| f_project := None; f_output := None; f_validation := Some "yup"; f_verbose := false;
                f_visualize := false; f_force := false |} in
-  kf_file_invalid ex_fs = false /\ kf_verbose_file_only ex_fs fl = false
-  /\ spec_invalid ex_fs (spec_eff ex_fs fl) = true /\ run_generate ex_fs fl = RReject (BadLib "yup") ex_fs.
+  spec_invalid ex_fs (spec_eff ex_fs fl) = true /\ run_generate ex_fs fl = RReject (BadLib "yup") ex_fs.
 Proof. vm_compute. repeat split; reflexivity. Qed.
+
+(* the old C19-1 witnesses: an unsupported library / a missing project path in the file is
+   refused; a file that relies on the missing default project runs with the flag's project
+   and keeps its other settings *)
+Definition fs_with (sec : list (string * json)) (st : list (string * node)) : fs :=
+  (st ++ [("projB", NProj);
+          ("tauri.conf.json", NDoc (Some (JObj [("plugins", JObj [("typegen", JObj sec)])])))])%list.
+Example C19_ex_file_invalid_refused :
+  let f1 := fs_with [("validationLibrary", JStr "yup"); ("outputPath", JStr "./outF")] [("src-tauri", NProj)] in
+  let f2 := fs_with [("projectPath", JStr "./nope"); ("outputPath", JStr "./outF")] [("src-tauri", NProj)] in
+  let f3 := fs_with [("outputPath", JStr "./outF"); ("validationLibrary", JStr "zod")] [] in
+  run_generate f1 no_flags = RReject (BadLib "yup") f1
+  /\ run_generate f2 no_flags = RReject (NoProject "./nope") f2
+  /\ exists e f', run_generate f3 {| f_project := Some "./projB"; f_output := None; f_validation := None;
+                                     f_verbose := false; f_visualize := false; f_force := false |} = RRun e f'
+                  /\ e_project e = "./projB" /\ e_output e = "./outF" /\ e_lib e = "zod".
+Proof. vm_compute. split; [reflexivity|]. split; [reflexivity|]. eexists. eexists. repeat split; reflexivity. Qed.
+
+(* the old C19-6 witness: verbose only in the file switches the logger on as well *)
+Example C19_ex_verbose_from_file :
+  let f := fs_with [("verbose", JBool true)] [("src-tauri", NProj)] in
+  exists e f', run_generate f no_flags = RRun e f' /\ e_verbose e = true /\ e_log_verbose e = true.
+Proof. vm_compute. eexists. eexists. repeat split; reflexivity. Qed.
 
 (* the old C19-2 witness (init -v foo on a readable document): refused, nothing written *)
 Definition ex_fs_init : fs :=
@@ -197,8 +208,6 @@ Print Assumptions C19_preserve.
 Print Assumptions C19_save_refused.
 Print Assumptions C19_roundtrip.
 Print Assumptions C19_precedence.
-Print Assumptions C19_precedence_file_refuted.
-Print Assumptions C19_precedence_verbose_refuted.
 Print Assumptions C19_generate_reject_first.
 Print Assumptions C19_init_reject_first.
 Print Assumptions C19_init_unsaveable.
